@@ -3,12 +3,17 @@
 (* the events, the two state sets, the expected resolved state and the expected intermediate stages.        *)
 EXTENDS Room, Json
 
-CONSTANT Triples   \* also emit queries with three state sets
+CONSTANTS Triples,   \* also emit queries with three state sets
+          SpellSet,  \* spellings of power-levels events in this run (the configurations say Spells <- GenSpells)
+          PadTypes   \* event types for which StateRes!PadNeutral is checked on every query (it costs one more
+                     \* resolution per type: the harness pads the queries of every run, TLC checks the lemma on some)
+
+GenSpells == SpellSet
 
 
 EvJson(i) == [id |-> i, type |-> E[i].type, sender |-> E[i].sender, skey |-> E[i].skey, membership |-> E[i].membership,
               plu |-> E[i].plu, jr |-> E[i].jr, prev |-> E[i].prev, auth |-> E[i].auth, depth |-> E[i].depth,
-              ts |-> E[i].ts, idr |-> E[i].idr, sha |-> E[i].sha, addl |-> E[i].addl, pud |-> E[i].pud]
+              ts |-> E[i].ts, idr |-> E[i].idr, sha |-> E[i].sha, addl |-> E[i].addl, pud |-> E[i].pud, spell |-> E[i].spell]
 
 \* free events that some other event cites as an auth event: candidates for the caller's rejected-event oracle
 RejectCandidates == {x \in DOMAIN E : x > Base /\ \E y \in DOMAIN E : x \in E[y].auth}
@@ -29,11 +34,22 @@ Query(tips, rej) ==
           \* the sender power (rank) each event of the power order was sorted with (R2): diagnosis only
           spower |-> [k \in DOMAIN st.power |-> SenderPower(ER, Ver, st.power[k])]]
 
+\* the lemmas that license what the concretiser varies freely (spelling of levels, realisation of depth ranks) and
+\* the padded variants of C11
+LemmasOK(Sets) ==
+    /\ \A i \in DOMAIN E : SpellAdmitted(Ver, E[i].spell) /\ (E[i].type # "pl" => E[i].spell = "int")
+    /\ (RoomSpells # {"int"} => LevelsSpellingFree(E, Ver, Sets))
+    /\ (StateRes(Ver) = "v1" =>
+          /\ V1DepthRankOnly(E, Ver, Sets)
+          /\ \A e \in AllIds(Sets) : V1StrictTotal(E, ForKey(E, AllIds(Sets), KeyOf(E, e))))
+    /\ \A t \in PadTypes : PadNeutral(E, Ver, Sets, t)
+
 \* one evaluation of the stages per query: check the definition's properties and emit the query
 QueryOK(tips, rej) ==
     LET q == Query(tips, rej) IN
     /\ WellFormedR(E, q.sets, q.result)
     /\ (Len(tips) = 2 => PairOK(tips[1], tips[2], q.result))
+    /\ (rej = {} => LemmasOK(q.sets))
     /\ PrintT(ToJson(q))
 
 \* three state sets: the newest event, an event it is incomparable with, and any third event that is not an
